@@ -187,6 +187,9 @@ def gen_statm(rng):
 
 def gen_case(rng):
     n = rng.choice([0, 1, 1, 2, 3, 5, 8, 13, 21, 34, 60, rng.randrange(0, 61), rng.randrange(0, 61)])
+    if rng.random() < 0.004:
+        # JVMs, browsers, databases: thousands of mappings, a listing of several MiB (crossing every buffer / slice size)
+        n = rng.choice([700, 1400, 2100, 3000, 4200])
     opt, ropt = gen_opt(rng)
     # names available to this process: a few, so that repeats are common
     pool = []
@@ -424,6 +427,22 @@ def run_case(case, acc):
         return any(k == "read" and path.endswith("/smaps_rollup") for k, path in vk.log[since:])
 
     with vk:
+        if case.get("percent_first"):
+            # a fresh program whose first question is memory_percent(): nothing has asked virtual_memory() in this interpreter
+            if getattr(ps, "_TOTAL_PHYMEM", None) is not None:
+                acc.inconclusive = "percent_first: this interpreter already knows a total physical memory"
+                return
+            try:
+                pr0 = ps.Process(case["pid"])
+                for mt in case["memtypes"][:2] or ["rss"]:
+                    pc = pr0.memory_percent(mt)
+                    acc.count("percent_comparisons_before_any_virtual_memory_call")
+                    want = 100.0 * exp_full[mt] / total_bytes
+                    if not isinstance(pc, float) or not math.isclose(pc, want, rel_tol=1e-12, abs_tol=0.0):
+                        viols.append(("memory_percent_wrong:before_any_virtual_memory_call",
+                                      f"memory_percent({mt!r}) = {pc!r} want {want!r} (field {exp_full[mt]}, total {total_bytes})"))
+            except Exception as e:  # noqa: BLE001
+                viols.append((f"memory_percent_exception:{type(e).__name__}:before_any_virtual_memory_call", repr(e)))
         # the cache of total physical memory follows the simulated kernel (public API)
         ok, vm = call("virtual_memory", ps.virtual_memory)
         if ok and vm.total != total_bytes:
@@ -796,6 +815,9 @@ def plan(tier, seed):
         shards.append(dict(kind="gen", seed=seed, start=s, count=c))
     shards.append(dict(kind="live"))
     shards.append(dict(kind="threads", seed=seed, count=15 if tier == "quick" else 400))
+    # one fresh interpreter each: memory_percent() is the program's very first question
+    for k in range(3 if tier == "quick" else 12):
+        shards.append(dict(kind="fresh_percent", seed=seed, k=k))
     return shards
 
 
@@ -812,6 +834,16 @@ def run_shard(shard):
             run_case(gen_case(rng), acc)
     elif shard["kind"] == "live":
         run_live(shard, acc)
+    elif shard["kind"] == "fresh_percent":
+        rng = harness.rng_for(shard["seed"], "c13fresh", shard["k"])
+        case = gen_case(rng)
+        while not case["memtypes"] or case.get("zombie"):
+            case = gen_case(rng)
+        case["percent_first"] = True
+        run_case(case, acc)
+        # and then the ordinary course of things in the same interpreter
+        for _ in range(20):
+            run_case(gen_case(rng), acc)
     elif shard["kind"] == "threads":
         for i in range(shard["count"]):
             cs = [gen_case(harness.rng_for(shard["seed"], "c13t", i, k)) for k in range(4)]
